@@ -315,6 +315,7 @@ def run(idx: ProgramIndex, rep: Report, tier: str):
     grid_enumeration(idx, rep)
     evaluation_is_pure(idx, rep)
     same_points_same_matrix(idx, rep)
+    exact_test_prior(idx, rep)
 
 
 # ---- C09-5: one enumeration order of the grid points for every producer and consumer ---------------------------------------
@@ -714,3 +715,29 @@ def same_points_same_matrix(idx: ProgramIndex, rep: Report):
             else:
                 rep.add("C09-7", inst, fi.where, True, "the equal-branch results coincide with the general branch at %s := %s" % (b, a), {})
     rep.floor("C09-7", "functions branching on torch.equal of two inputs", n, 3)
+
+
+# ---- C09-8 ---------------------------------------------------------------------------------------------------------
+def exact_test_prior(idx: ProgramIndex, rep: Report):
+    """The SGPR predictive covariance is K** - Q** + K*u (Kuu + Kuf Kfu / s2)^-1 Ku*: the prior block of the test points is the *exact*
+    kernel.  SGPRPredictionStrategy.exact_prediction obtains it by re-pointing the lazily evaluated test/test block at the inducing
+    point kernel's base kernel.  That substitution may depend on what the block *is* (type tests), on nothing else: a setting in the
+    guard makes the predictive covariance Q** - ... (under-estimated by diag(K** - Q**)) whenever the setting is off."""
+    rep.rule("C09-8", "SGPR prediction: the substitution of the exact base kernel for the test/test prior block is guarded by type tests only")
+    cls = idx.find_class("SGPRPredictionStrategy")
+    fi = idx.method(cls, "exact_prediction", own=True)
+    n = 0
+    for st in ast.walk(fi.node):
+        if not isinstance(st, ast.If):
+            continue
+        subst = any(isinstance(x, ast.Attribute) and x.attr == "base_kernel" for b_ in st.body for x in ast.walk(b_))
+        if not subst:
+            continue
+        n += 1
+        atoms = st.test.values if isinstance(st.test, ast.BoolOp) and isinstance(st.test.op, ast.And) else [st.test]
+        other = [a for a in atoms if not (isinstance(a, ast.Call) and chain(a.func) == "isinstance")]
+        rep.add("C09-8", "%s:SGPRPredictionStrategy.exact_prediction[K** substitution]" % cls.module.name, "%s:%d" % (fi.module.relpath, st.lineno), not other,
+                "guarded by %d type test(s)" % len(atoms) if not other else
+                "the substitution also depends on `%s`: when that is false the test prior stays the Nystrom block Q** and the predictive covariance is Q** - Q*f (Qff + s2 I)^-1 Qf* instead of the SGPR predictive equation" % " ".join(src(other[0]).split())[:60], {})
+    if n == 0:
+        raise AnalysisError("C09-8: the base-kernel substitution in SGPRPredictionStrategy.exact_prediction was not found (anchor vanished)")
